@@ -39,6 +39,10 @@ type c05Case struct {
 	Sections     []c05Section     `json:"sections"`
 	Reservations []c05Reservation `json:"reservations"`
 	ViaMultiboot bool             `json:"viamultiboot,omitempty"` // deliver the sections through a real multiboot2 block
+	// MbLead: the block starts with a command-line tag of that many text bytes (0 = the
+	// ELF-sections tag comes first). The block always lives at the same address, the way a boot
+	// loader drops it at its fixed place: what a previous block held there must not matter.
+	MbLead int `json:"mblead,omitempty"`
 	FailAt       int              `json:"failat,omitempty"`       // fail the k-th frame allocation of setupPDTForKernel
 	TempFail     bool             `json:"tempfail,omitempty"`     // fail the temporary mapping of the new root
 	Hi           uint64           `json:"hi,omitempty"`           // frames with upper-half physical names (vmMachine.hiMask)
@@ -91,7 +95,7 @@ func c05Run(c c05Case) *vlib.Failure {
 
 	if c.ViaMultiboot {
 		// the real decoder reads the ELF-sections tag of a multiboot2 information block
-		keep := c05InstallMultiboot(c.Sections)
+		keep := c05InstallMultiboot(c.Sections, c.MbLead)
 		defer func() { _ = keep }()
 		visitElfSectionsFn = multiboot.VisitElfSections
 	} else {
@@ -207,7 +211,10 @@ func c05Run(c c05Case) *vlib.Failure {
 // c05InstallMultiboot encodes the sections as the ELF-symbols tag of a multiboot2 block
 // (64-byte section headers, names in a string table that is itself the last section) and
 // points the multiboot package at it. The returned slices keep the memory alive.
-func c05InstallMultiboot(secs []c05Section) [][]uint64 {
+// c05MbArena is where every multiboot block of this process is put.
+var c05MbArena [40 << 10]uint64
+
+func c05InstallMultiboot(secs []c05Section, lead int) [][]uint64 {
 	var strtab []byte
 	strtab = append(strtab, 0)
 	nameOff := make([]uint32, len(secs))
@@ -225,11 +232,29 @@ func c05InstallMultiboot(secs []c05Section) [][]uint64 {
 
 	n := len(secs) + 1
 	tagSize := 8 + 12 + 64*n
-	total := 8 + (tagSize+7)&^7 + 8
-	back := make([]uint64, total/8+2)
+	leadSize := 0
+	if lead > 0 {
+		leadSize = (8 + lead + 1 + 7) &^ 7
+	}
+	total := 8 + leadSize + (tagSize+7)&^7 + 8
+	back := c05MbArena[:]
+	if total > len(back)*8 {
+		panic("VERIF-HARNESS: multiboot arena too small")
+	}
 	b := unsafe.Slice((*byte)(unsafe.Pointer(&back[0])), total)
+	for i := range b {
+		b[i] = 0
+	}
 	le := binary.LittleEndian
 	le.PutUint32(b[0:], uint32(total))
+	if lead > 0 {
+		le.PutUint32(b[8:], 1) // boot command line
+		le.PutUint32(b[12:], uint32(8+lead+1))
+		for i := 0; i < lead; i++ {
+			b[16+i] = "quiet x=1 "[i%10]
+		}
+	}
+	b = b[leadSize:] // from here on offsets are those of a block without the leading tag
 	le.PutUint32(b[8:], 9) // ELF symbols tag
 	le.PutUint32(b[12:], uint32(tagSize))
 	le.PutUint32(b[16:], uint32(n))
@@ -250,8 +275,8 @@ func c05InstallMultiboot(secs []c05Section) [][]uint64 {
 	end := 8 + (tagSize+7)&^7
 	le.PutUint32(b[end:], 0)
 	le.PutUint32(b[end+4:], 8)
-	multiboot.SetInfoPtr(uintptr(unsafe.Pointer(&b[0])))
-	return [][]uint64{back, strBack}
+	multiboot.SetInfoPtr(uintptr(unsafe.Pointer(&c05MbArena[0])))
+	return [][]uint64{strBack}
 }
 
 func c05Gen(t *rapid.T) c05Case {
@@ -286,6 +311,9 @@ func c05Gen(t *rapid.T) c05Case {
 		}
 		n = 0
 		c.ViaMultiboot = c.Offset >= 0xffff800000000000
+		if c.ViaMultiboot {
+			c.MbLead = rapid.SampledFrom([]int{0, 0, 1, 7, 8, 100, 3000}).Draw(t, "mblead")
+		}
 	}
 	for i := 0; i < n; i++ {
 		s := c05Section{Name: fmt.Sprintf(".s%d", i)}
@@ -346,6 +374,7 @@ func c05Gen(t *rapid.T) c05Case {
 	// certain to lie below the kernel range and therefore to be skipped
 	if c.Offset >= 0xffff800000000000 && rapid.IntRange(0, 2).Draw(t, "viamultiboot") == 0 {
 		c.ViaMultiboot = true
+		c.MbLead = rapid.SampledFrom([]int{0, 0, 1, 7, 8, 100, 3000}).Draw(t, "mblead")
 	}
 	switch rapid.IntRange(0, 9).Draw(t, "inject") {
 	case 0:
@@ -401,6 +430,9 @@ func TestVerifC05(t *testing.T) {
 		}
 		if c.ViaMultiboot {
 			add("sections-through-real-multiboot-block")
+			if c.MbLead > 0 {
+				add("multiboot-block-with-another-tag-in-front-of-the-sections")
+			}
 			if len(c.Sections) > 1000 {
 				add("more-than-1000-section-headers-through-the-real-decoder")
 			}
